@@ -88,8 +88,8 @@ theorem xcube_servable (Lx Ly Lz : Nat) (hx : 2 ≤ Lx) (hy : 2 ≤ Ly) (hz : 2 
     · right
       intro q hq
       obtain ⟨x, y, z, rfl⟩ := XCubeCode.mem_qubits_shape Lx Ly Lz q hq
-      show (XCubeCode.getDeformation name "z" [x, y, z]).isSome = true
-      rw [h, C01XCubeCode.deformation_rule, C01XCubeCode.qubit_axis_rule Lx Ly Lz x y z hq]
+      show (XCubeCode.getDeformation name none [x, y, z]).isSome = true
+      rw [C01XCubeCode.deformation_default_axis, h, C01XCubeCode.deformation_rule, C01XCubeCode.qubit_axis_rule Lx Ly Lz x y z hq]
       simp
 
 theorem rotatedPlanar3D_servable (Lx Ly Lz : Nat) (hx : 1 ≤ Lx) (hy : 1 ≤ Ly) (hz : 1 ≤ Lz)
